@@ -190,6 +190,10 @@ class Converter:
                 return fun(REDUCTIONS[a])(self.conv(recv))
             if a == "var" and not args and [(k.arg, unparse(k.value)) for k in e.keywords] == [("ddof", "0")]:
                 return fun("Var0")(self.conv(recv))
+            if a in ("var", "std") and not args and all(k.arg == "ddof" and isinstance(k.value, ast.Constant) and isinstance(k.value.value, int) for k in e.keywords):
+                # another divisor (pandas' default is ddof=1): a different, known reduction - it compares unequal to the reference
+                dd = e.keywords[0].value.value if e.keywords else 1
+                return fun(f"{'Var' if a == 'var' else 'Std'}{dd}")(self.conv(recv))
             if a == "autocorr" and [(k.arg, unparse(k.value)) for k in e.keywords] == [("lag", "1")] and not args:
                 return fun("Autocorr1")(self.conv(recv))
             if a == "unique" and not args:
@@ -265,8 +269,47 @@ class Converter:
                 continue
             if isinstance(st, ast.Raise):
                 raise Unsupported("raise on the evaluated path")
+            if isinstance(st, ast.For) and not st.orelse:
+                # a loop over a literal table: unrolled; the first iteration that returns ends the function
+                items = self.conv(st.iter)
+                if not isinstance(items, list):
+                    raise Unsupported("loop over something that is not a literal table: " + unparse(st.iter)[:60])
+                done = False
+                for it_ in items:
+                    if isinstance(st.target, ast.Name):
+                        self.env[st.target.id] = it_
+                    elif isinstance(st.target, (ast.Tuple, ast.List)) and isinstance(it_, list) and len(it_) == len(st.target.elts) and all(isinstance(t_, ast.Name) for t_ in st.target.elts):
+                        for t_, x_ in zip(st.target.elts, it_):
+                            self.env[t_.id] = x_
+                    else:
+                        raise Unsupported("loop target form: " + unparse(st.target)[:40])
+                    if any(isinstance(x, (ast.Break, ast.Continue)) for b in st.body for x in ast.walk(b)):
+                        raise Unsupported("break / continue in an unrolled loop")
+                    r = self._loop_body(st.body)
+                    if r is not _CONTINUE:
+                        return r
+                continue
             raise Unsupported(unparse(st)[:60])
         return None
+
+    def _loop_body(self, body: List[ast.stmt]):
+        """One unrolled iteration: `_CONTINUE` when it falls through, else the returned value."""
+        marker = object()
+        has_ret = any(isinstance(x, ast.Return) for b in body for x in ast.walk(b))
+        if not has_ret:
+            self.run_body(body)
+            return _CONTINUE
+        # run statement by statement so a fall-through (no return reached) is told apart from `return None`
+        for st in body:
+            if isinstance(st, ast.If):
+                r = self._if(st)
+                if r is not _CONTINUE:
+                    return r
+                continue
+            if isinstance(st, ast.Return):
+                return self.conv(st.value) if st.value is not None else None
+            r = self.run_body([st])
+        return _CONTINUE
 
     def _if(self, st: ast.If):
         t = st.test
